@@ -90,7 +90,7 @@ def gen_uamiv(rng, maxdim=4, maxsteps=3):
     grid = dict(PLON=rng.choice([-97., 0., 10.5]), PLAT=rng.choice([40., 0., 90.]), IUTM=rng.choice([0, 15]),
                 XORIG=rng.choice([-2736000., 0., 12.5]), YORIG=rng.choice([-2088000., 1.0, -36.]),
                 XCELL=rng.choice([36000., 12000., 0.5]), YCELL=rng.choice([36000., 12000., 0.25]),
-                CPROJ=rng.choice([0, 1, 2]), ISTAG=rng.choice([0, 1]), TLAT1=rng.choice([33., 0.]),
+                CPROJ=rng.choice([0, 1, 2, 3]), ISTAG=rng.choice([0, 1]), TLAT1=rng.choice([33., 0.]),
                 TLAT2=rng.choice([45., 0.]))
     data = [[[[rand_f32_bits(rng) for _ in range(nx * ny)] for _ in range(nz)] for _ in range(nspec)] for _ in range(nt)]
     with_etflag = rng.random() < 0.5
